@@ -1452,7 +1452,8 @@ MANIFEST = {
             "histories: every sequence of up to 3 (thorough 4) operations from a 10-operation alphabet on "
             "one pair of sessions acting in both roles (incl. prefix registrations/subscriptions, self-"
             "calls, key removal/re-installation) x 8 asymmetric keyring layouts, each operation judged by "
-            "a capability model and against the same operation on fresh sessions.",
+            "a capability model and against the same operation on fresh sessions."
+            " Altered EVENTs also arrive under the publication id of a genuine EVENT delivered before; payloads include text values that look like '0x' hex literals.",
     "note": "Trusted: harness/wamp_b2b.py router (relays payload fields verbatim), PyNaCl. Keys are "
             "6 fixed pairs; payload/URI menus; replay of unmodified ciphertexts and reflection are "
             "outside the fault model; 'covered' follows the URI-scoped key lookup of the keyring.",
